@@ -321,16 +321,19 @@ func (h *Handler) handleDidSave(params json.RawMessage) {
 
 	h.server.Logger().Printf("Document saved: %s", p.TextDocument.URI)
 
-	// If text is included, use it; otherwise get from document manager
-	content := p.Text
-	if content == "" {
-		if c, ok := h.server.Documents().GetContent(p.TextDocument.URI); ok {
-			content = c
+	// An open document is re-validated from the server's own copy, under the
+	// version that copy has: diagnostics published with version 0 would
+	// belong to no version the client knows. The text of the notification is
+	// only used for a document that is not open.
+	if doc, ok := h.server.Documents().Get(p.TextDocument.URI); ok {
+		if len(doc.Content) <= h.server.MaxDocumentSizeBytes() {
+			h.validateDocument(p.TextDocument.URI, doc.Content, doc.Version)
 		}
+		return
 	}
 
-	if content != "" {
-		h.validateDocument(p.TextDocument.URI, content, 0)
+	if p.Text != "" {
+		h.validateDocument(p.TextDocument.URI, p.Text, 0)
 	}
 }
 
